@@ -50,3 +50,78 @@ Proof.
     apply wrap64_small. unfold in64, s32, w32. destruct ((ts - prev) mod 4294967296 <? 2147483648) eqn:E; lia. }
   rewrite E. reflexivity.
 Qed.
+
+(* ================= pkg/ntp: the float-free parts of Encode / Decode =================
+   (spec lines in tools/go2coq/spec.d/rtptime.txt; t.UnixNano() is an opaque call of the kernel, the float64 rounding of
+   the fraction stays in Model.frac53 / Model.decode - its INTEGER argument is translated) *)
+Definition u64 (x : Z) : Prop := 0 <= x < 18446744073709551616.
+
+Lemma lor_u64 a b : u64 a -> u64 b -> u64 (Z.lor a b).
+Proof.
+  unfold u64. intros Ha Hb. assert (Hn : 0 <= Z.lor a b) by (apply Z.lor_nonneg; lia). split; [exact Hn|].
+  destruct (Z.eq_dec (Z.lor a b) 0) as [E|E]; [lia|].
+  change 18446744073709551616 with (2 ^ 64). apply Z.log2_lt_pow2; [lia|].
+  rewrite Z.log2_lor by lia.
+  assert (La : a = 0 \/ Z.log2 a < 64) by (destruct (Z.eq_dec a 0); [left; assumption|right; apply Z.log2_lt_pow2; [lia|change (2 ^ 64) with 18446744073709551616; lia]]).
+  assert (Lb : b = 0 \/ Z.log2 b < 64) by (destruct (Z.eq_dec b 0); [left; assumption|right; apply Z.log2_lt_pow2; [lia|change (2 ^ 64) with 18446744073709551616; lia]]).
+  destruct La as [->|La], Lb as [->|Lb]; cbn [Z.log2]; lia.
+Qed.
+
+(* ntp := uint64(t.UnixNano()) + 2208988800*1000000000 *)
+Lemma bridge_ntp_enc_ntp u : k_ntp_enc_ntp u = w64 (w64 u + ntp_offset * second_ns).
+Proof. reflexivity. Qed.
+(* secs := ntp / 1000000000 *)
+Lemma bridge_ntp_enc_secs ntp : u64 ntp -> k_ntp_enc_secs ntp = ntp / second_ns.
+Proof.
+  unfold u64, k_ntp_enc_secs, second_ns. intros H. rewrite Z.quot_div_nonneg by lia. unfold w64. lia.
+Qed.
+(* the integer handed to float64 in the fraction: (ntp % 1000000000) * (1 << 32) *)
+Lemma bridge_ntp_enc_fracin ntp : u64 ntp -> k_ntp_enc_fracin ntp = w64 ((ntp mod second_ns) * two32).
+Proof.
+  unfold u64, k_ntp_enc_fracin, second_ns, two32. intros H. rewrite Z.rem_mod_nonneg by lia.
+  assert (E : w64 (ntp mod 1000000000) = ntp mod 1000000000) by (unfold w64; lia). rewrite E. reflexivity.
+Qed.
+(* return secs<<32 | fractional *)
+Lemma bridge_ntp_enc_pack secs f : u64 f -> k_ntp_enc_pack secs f = Z.lor (w64 (Z.shiftl secs 32)) f.
+Proof.
+  unfold k_ntp_enc_pack. intros Hf.
+  assert (Hs : u64 (w64 (Z.shiftl secs 32))) by (unfold u64, w64; lia).
+  pose proof (lor_u64 _ _ Hs Hf) as Hl. unfold u64 in Hl. unfold w64 at 1. apply Z.mod_small. exact Hl.
+Qed.
+(* Model.encode_with IS Encode written with the translated kernels, for any rounding [fr] of the fraction that
+   yields a uint64, and Model.frac53 rounds the translated integer *)
+Theorem ntp_encode_kernels_are_the_code fr unix_ns : (forall n, u64 (fr n)) ->
+  encode_with fr unix_ns =
+  k_ntp_enc_pack (k_ntp_enc_secs (k_ntp_enc_ntp unix_ns)) (fr (k_ntp_enc_ntp unix_ns mod second_ns)).
+Proof.
+  intros Hfr. unfold encode_with. cbv zeta. rewrite <- bridge_ntp_enc_ntp.
+  assert (Hn : u64 (k_ntp_enc_ntp unix_ns)) by (unfold u64, k_ntp_enc_ntp, w64; lia).
+  rewrite (bridge_ntp_enc_secs _ Hn), (bridge_ntp_enc_pack _ _ (Hfr _)). reflexivity.
+Qed.
+Theorem ntp_frac_input_is_the_code ntp : u64 ntp ->
+  frac53 (ntp mod second_ns) = w64 (round_half_away (fdiv (of_int (k_ntp_enc_fracin ntp)) (of_int second_ns))).
+Proof. intros H. unfold frac53. rewrite (bridge_ntp_enc_fracin ntp H). reflexivity. Qed.
+
+(* Decode: secs := int64((v >> 32) - 2208988800) *)
+Lemma bridge_ntp_dec_secs v : u64 v -> k_ntp_dec_secs v = wrap64 (Z.shiftr v 32 - ntp_offset).
+Proof.
+  unfold u64, k_ntp_dec_secs, ntp_offset. intros H. change ki64 with wrap64.
+  assert (E : w64 (Z.shiftr v 32) = Z.shiftr v 32).
+  { rewrite Z.shiftr_div_pow2 by lia. change (2 ^ 32) with 4294967296. unfold w64. lia. }
+  rewrite E. unfold wrap64. f_equal. unfold w64. lia.
+Qed.
+(* the integer handed to float64 in the nanoseconds: ((v & 0xFFFFFFFF) * 1000000000) / (1 << 32) *)
+Lemma bridge_ntp_dec_fracin v : u64 v ->
+  k_ntp_dec_fracin v = w64 (Z.land v 4294967295 * second_ns) / two32.
+Proof.
+  unfold u64, k_ntp_dec_fracin, second_ns, two32. intros H.
+  assert (Hl : 0 <= Z.land v 4294967295 < 4294967296).
+  { change 4294967295 with (Z.ones 32). rewrite Z.land_ones by lia. change (2 ^ 32) with 4294967296. lia. }
+  assert (E : w64 (Z.land v 4294967295) = Z.land v 4294967295) by (unfold w64; lia). rewrite E.
+  rewrite Z.quot_div_nonneg by (unfold w64; lia). unfold w64. lia.
+Qed.
+Theorem ntp_decode_kernels_are_the_code v : u64 v ->
+  decode v = k_ntp_dec_secs v * second_ns + round_half_away (of_int (k_ntp_dec_fracin v)).
+Proof.
+  intros H. unfold decode. cbv zeta. rewrite (bridge_ntp_dec_secs v H), (bridge_ntp_dec_fracin v H). reflexivity.
+Qed.
